@@ -98,13 +98,19 @@ impl Read for GrowRead {
 pub struct CountRead {
     pub data: std::rc::Rc<std::cell::RefCell<Vec<u8>>>,
     pub delivered: std::rc::Rc<std::cell::RefCell<usize>>,
+    /// at most this many bytes are handed out per `read` call
+    pub chunk: usize,
 }
 
 impl CountRead {
     pub fn new(bytes: &[u8]) -> (CountRead, std::rc::Rc<std::cell::RefCell<Vec<u8>>>, std::rc::Rc<std::cell::RefCell<usize>>) {
         let data = std::rc::Rc::new(std::cell::RefCell::new(bytes.to_vec()));
         let delivered = std::rc::Rc::new(std::cell::RefCell::new(0usize));
-        (CountRead { data: data.clone(), delivered: delivered.clone() }, data, delivered)
+        (CountRead { data: data.clone(), delivered: delivered.clone(), chunk: usize::MAX }, data, delivered)
+    }
+    pub fn with_chunk(mut self, chunk: usize) -> CountRead {
+        self.chunk = chunk.max(1);
+        self
     }
 }
 
@@ -112,7 +118,7 @@ impl Read for CountRead {
     fn read(&mut self, buf: &mut [u8]) -> std::io::Result<usize> {
         let d = self.data.borrow();
         let mut pos = self.delivered.borrow_mut();
-        let n = buf.len().min(d.len() - *pos);
+        let n = buf.len().min(d.len() - *pos).min(self.chunk);
         buf[..n].copy_from_slice(&d[*pos..*pos + n]);
         *pos += n;
         Ok(n)
